@@ -6,6 +6,7 @@ import (
 	"go.flow.arcalot.io/engine/internal/step"
 	"go.flow.arcalot.io/pluginsdk/schema"
 	"regexp"
+	"sync"
 )
 
 // Workflow is the primary data structure describing workflows.
@@ -33,8 +34,19 @@ type Workflow struct {
 	Output any `json:"output"`
 }
 
+var workflowSchemaOnce sync.Once
+var workflowSchema *schema.TypedScopeSchema[*Workflow]
+
 // GetSchema returns the entire workflow schema.
+// The schema is built once: building it links shared schema objects, which must not happen concurrently.
 func GetSchema() *schema.TypedScopeSchema[*Workflow] {
+	workflowSchemaOnce.Do(func() {
+		workflowSchema = buildSchema()
+	})
+	return workflowSchema
+}
+
+func buildSchema() *schema.TypedScopeSchema[*Workflow] {
 	return schema.NewTypedScopeSchema[*Workflow](
 		schema.NewStructMappedObjectSchema[*Workflow](
 			"Workflow",
